@@ -113,6 +113,11 @@ func C09(c *core.Ctx) {
 		}
 	}
 
+	// ---- R9.4: the name the gates test is the name of the packet that travels.
+	// R9.1/R9.2 accept a gate on pkt.Name, pkt.L3.Interest.NameV or pkt.L3.Data.NameV
+	// alike; that is sound only while Pkt.Name is the name of the packet in Pkt.L3.
+	c09NameCoherence(c)
+
 	// ---- R9.3a: sendFrame is only called inside fw/face.
 	nFrame := 0
 	for _, fn := range p.Funcs() {
@@ -191,7 +196,7 @@ func C09(c *core.Ctx) {
 			}
 		})
 	}
-	c.Floor("R9.3", "scope stores", nStores, 4)
+	c.Floor("R9.3", "scope stores", nStores, 1)
 	c.Floor("R9.3", "makeTransportBase calls", nMake, 6)
 }
 
@@ -235,6 +240,32 @@ func checkScopeArg(c *core.Ctx, fn *ssa.Function, at ssa.Instruction, v ssa.Valu
 		}
 		c.Decide(allOK, "R9.3", key, c.Pos(at), "scope argument is Local only on the IsLoopback() true edge", "scope argument can be Local on a path where the remote address was not found to be loopback")
 		return
+	}
+	// computed by a function of the repository (remoteScope(uri), uri.Scope()): every
+	// return of Local lies behind IsLoopback()==true inside that function
+	if cl, ok := core.Strip(v).(*ssa.Call); ok {
+		if h := cl.Call.StaticCallee(); h != nil && h.Blocks != nil && h.Pkg != nil && strings.HasPrefix(h.Pkg.Pkg.Path(), core.ModPath) {
+			allOK, n := true, 0
+			why := ""
+			core.Instrs(h, func(in ssa.Instruction) {
+				r, isR := in.(*ssa.Return)
+				if !isR || len(r.Results) != 1 || in.Block() == h.Recover {
+					return
+				}
+				n++
+				k, isC := scopeConst(r.Results[0])
+				switch {
+				case !isC:
+					allOK, why = false, "returns a scope that is not a constant at "+c.P.Pos(r.Pos())
+				case k == 1:
+					if res := core.Gate(h, []ssa.Instruction{r}, core.Lit{A: isLoop, Want: true}); !res.OK || res.PassEdges == 0 {
+						allOK, why = false, "returns Local at "+c.P.Pos(r.Pos())+" on a path where the remote address was not found to be loopback"
+					}
+				}
+			})
+			c.Decide(allOK && n > 0, "R9.3", key, c.Pos(at), "scope argument computed by "+core.FuncName(h)+": Local returned only on the IsLoopback() true edge", "scope argument computed by "+core.FuncName(h)+", which "+why)
+			return
+		}
 	}
 	c.Viol("R9.3", key, c.Pos(at), "scope argument is neither a constant nor a choice of constants")
 }
@@ -281,4 +312,156 @@ func describeValue(v ssa.Value) string {
 		}
 	}
 	return "<" + v.Type().String() + ">"
+}
+
+// c09NameCoherence (R9.4): (a) whenever the layer-3 packet of a defn.Pkt is (re)placed —
+// a store to Pkt.L3, or of a non-nil value to Pkt.L3.Data / Pkt.L3.Interest — every later
+// hand-over of that Pkt to code outside the function group passes, in between, a store of
+// that packet's NameV into Pkt.Name; (b) Pkt.Name is only ever stored from the NameV of
+// the same Pkt's layer-3 packet.
+func c09NameCoherence(c *core.Ctx) {
+	p := c.P
+	type l3store struct {
+		st   *ssa.Store
+		pkt  ssa.Value // the *defn.Pkt
+		kind string    // "L3", "Data", "Interest"
+	}
+	isPktField := func(fa *ssa.FieldAddr, field string) bool {
+		t, f := core.FieldAddrName(fa)
+		return t == "Pkt" && f == field && strings.HasSuffix(core.TypePkgPath(fa.X.Type()), "/fw/defn")
+	}
+	var l3s []l3store
+	var names []*ssa.Store
+	for _, fn := range p.Funcs() {
+		if fn.Pkg == nil || !strings.HasPrefix(fn.Pkg.Pkg.Path(), core.ModPath+"/fw") {
+			continue
+		}
+		core.Instrs(fn, func(in ssa.Instruction) {
+			st, ok := in.(*ssa.Store)
+			if !ok {
+				return
+			}
+			fa, ok := st.Addr.(*ssa.FieldAddr)
+			if !ok {
+				return
+			}
+			switch {
+			case isPktField(fa, "L3"):
+				l3s = append(l3s, l3store{st, fa.X, "L3"})
+			case isPktField(fa, "Name"):
+				names = append(names, st)
+			default:
+				t, f := core.FieldAddrName(fa)
+				if t != "Packet" || (f != "Data" && f != "Interest") || core.IsNilConst(st.Val) {
+					return
+				}
+				if base, ok := core.FieldOf(fa.X, "L3"); ok {
+					if bfa, isFA := core.Strip(fa.X).(*ssa.UnOp); isFA {
+						if a, isA := bfa.X.(*ssa.FieldAddr); isA && isPktField(a, "L3") {
+							l3s = append(l3s, l3store{st, base, f})
+						}
+					}
+				}
+			}
+		})
+	}
+	// the value stored into Pkt.Name is <that pkt>.L3.{Interest,Data}.NameV, or the NameV
+	// of the value a given store put there
+	nameOf := func(v ssa.Value, pkt ssa.Value, from *l3store) bool {
+		if root, path := core.FieldPath(v); root != nil && len(path) == 3 && core.Same(root, pkt) &&
+			path[0] == "L3" && (path[1] == "Interest" || path[1] == "Data") && path[2] == "NameV" {
+			return from == nil || from.kind == "L3" || from.kind == path[1]
+		}
+		base, ok := core.FieldOf(v, "NameV")
+		if !ok || from == nil {
+			return false
+		}
+		if from.kind != "L3" {
+			return core.Same(base, from.st.Val)
+		}
+		for _, k := range []string{"Interest", "Data"} {
+			if b2, ok := core.FieldOf(base, k); ok && core.Same(b2, from.st.Val) {
+				return true
+			}
+		}
+		return false
+	}
+	nA := 0
+	for i := range l3s {
+		s := &l3s[i]
+		fn := s.st.Parent()
+		root := core.RootOf(fn)
+		restore := core.WithRoot(root)
+		set := map[*ssa.Function]bool{}
+		for _, g := range core.Reach(root) {
+			set[g] = true
+		}
+		isName := func(in ssa.Instruction) bool {
+			st, ok := in.(*ssa.Store)
+			if !ok {
+				return false
+			}
+			fa, ok := st.Addr.(*ssa.FieldAddr)
+			return ok && isPktField(fa, "Name") && core.Same(fa.X, s.pkt) && nameOf(st.Val, s.pkt, s)
+		}
+		var hand []ssa.Instruction
+		core.InstrsDeep(root, func(in ssa.Instruction) {
+			switch x := in.(type) {
+			case ssa.CallInstruction:
+				if cal := x.Common().StaticCallee(); cal != nil && set[cal] {
+					return // its body is part of the group
+				}
+				for _, a := range x.Common().Args {
+					if core.Same(a, s.pkt) {
+						hand = append(hand, in)
+						return
+					}
+				}
+			case *ssa.Send:
+				if core.Same(x.X, s.pkt) {
+					hand = append(hand, in)
+				}
+			}
+		})
+		bad := ""
+		n := 0
+		for _, h := range hand {
+			if !core.ReachableAfterDeep(root, s.st, h) {
+				continue
+			}
+			n++
+			if !core.BetweenDeep(root, s.st, h, isName) {
+				bad = p.Pos(h.Pos())
+				break
+			}
+		}
+		restore()
+		nA++
+		c.Sites += n
+		c.Funcs[core.FuncName(fn)] = true
+		key := fmt.Sprintf("l3-store-then-name:%s:%s", core.FuncName(root), s.kind)
+		c.Decide(bad == "", "R9.4", key, c.Pos(s.st),
+			fmt.Sprintf("Pkt.%s replaced; each of the %d later hand-overs of the Pkt passes a store Pkt.Name = <that packet>.NameV first", s.kind, n),
+			"the layer-3 packet of a Pkt is replaced and the Pkt is handed on at "+bad+" without Pkt.Name being set to the new packet's name: the /localhost gates that read Pkt.Name test a different name than the packet sent")
+	}
+	c.Floor("R9.4", "stores that replace a Pkt's layer-3 packet", nA, 2)
+	for _, st := range names {
+		fa := st.Addr.(*ssa.FieldAddr)
+		fn := st.Parent()
+		root := core.RootOf(fn)
+		restore := core.WithRoot(root)
+		ok := nameOf(st.Val, fa.X, nil)
+		if !ok {
+			for i := range l3s {
+				s := &l3s[i]
+				if core.Same(s.pkt, fa.X) && nameOf(st.Val, fa.X, s) && core.ReachableAfterDeep(root, s.st, st) {
+					ok = true
+				}
+			}
+		}
+		restore()
+		c.Funcs[core.FuncName(fn)] = true
+		c.Decide(ok, "R9.4", "name-store:"+core.FuncName(fn), c.Pos(st), "Pkt.Name stored from the NameV of the same Pkt's layer-3 packet", "Pkt.Name is stored from something other than the name of the Pkt's own layer-3 packet")
+	}
+	c.Floor("R9.4", "stores to Pkt.Name", len(names), 2)
 }
